@@ -25,6 +25,8 @@ ONE_TO_ONE = {
     'lib/upipe-modules/upipe_delay.c': None,
     'lib/upipe-modules/upipe_match_attr.c': 'upipe_match_attr.h: urefs that do not match are dropped by design',
 }
+# block operations whose failure depends on the length of the buffer they are applied to
+RANGE_OP_RE = re.compile(r'^u(ref|buf)_block_(resize|delete|truncate|extract|peek|splice|insert|split)$')
 ANCHOR_UNITS = list(ONE_TO_ONE) + ['lib/upipe-modules/upipe_dup.c', 'lib/upipe-modules/upipe_null.c',
                                    'lib/upipe-modules/upipe_queue_sink.c']
 
@@ -44,7 +46,8 @@ FIFO_EXCEPTIONS = {
 def check_1to1(rep, prog, W):
     rep.rule('R-1to1', 'input function of a one-to-one pipe: on every path that is not an allocation-failure path the input uref itself is '
              'handed to exactly one forwarding call (X_output / upipe_input); a path that frees it instead has thrown an event or logged a '
-             'warning/error, or takes the failure branch of a fallible call (documented drop conditions listed)')
+             'warning/error, or takes the failure branch of a fallible call - but not when all that failed is a range operation on the input buffer itself (resize, delete, truncate, extract...), '
+             'which makes the drop a function of the input (documented drop conditions listed)')
     inputs = ownrule.input_functions(prog)
     for uname, reason in sorted(ONE_TO_ONE.items()):
         u = prog.units.get(uname)
@@ -70,6 +73,11 @@ def check_1to1(rep, prog, W):
                 elif atom == own.C:
                     if not (loud or err) and not reason:
                         bad.append(('input freed by %s on a silent path (no event, no failed call)' % how, line, trail))
+                    elif err and not reason and all(RANGE_OP_RE.match(e) for e in err):
+                        # the only thing that failed is a range operation on the input itself (a buffer shorter than
+                        # what the pipe wants to cut): that is a property of the input, not a failure of
+                        # the system, and a one-to-one pipe documented without drop conditions forwards such a buffer
+                        bad.append(('input freed by %s because %s refused this particular buffer: dropped instead of forwarded' % (how, ', '.join(sorted(err))), line, trail))
                 elif atom == own.K:
                     bad.append(('input kept (%s) instead of forwarded' % how, line, trail))
                 elif atom == own.O:
